@@ -30,6 +30,21 @@ def build(ctx):
             t[1] = kw + pt.ident(rng)
             t[2] = [pt.domain(rng), t[2]]
             S["valid"].append({"tree": t, "text": pt.statement_text(rng, pt.lexemes(rng, t), eof=False), "kind": "kernel-complex"})
+    # keywords are case-sensitive: a kernel complex whose name starts with a keyword in ANOTHER case has one reading, whatever
+    # its pattern looks like (`Sequence2 = N`, `LENGTH_a = 5`)
+    for kw in pt.KEYWORDS:
+        for cased in (kw.capitalize(), kw.upper()):
+            for _ in range(3 if quick else 30):
+                t = pt.gen_tree(rng, "kernel-complex", rng.choice([1, 2, 3]))
+                t[1] = cased + pt.ident(rng)
+                S["valid"].append({"tree": t, "text": pt.statement_text(rng, pt.lexemes(rng, t), eof=False), "kind": "kernel-complex"})
+            # patterns that the keyword's own statement would accept as well, were the keyword matched in this case
+            body = {"length": [["7"], ["short"]], "domain": [["15"], ["long"]], "sequence": [["NNN"], ["ACGT"]],
+                    "strand": [["a", "b"], ["t"]], "sup-sequence": [["a", "b*"], ["t"]]}.get(kw)
+            for pat in body or []:
+                t = ["kernel-complex", cased + pt.ident(rng), list(pat)]
+                S["valid"].append({"tree": t, "text": pt.statement_text(rng, pt.lexemes(rng, t), eof=False), "kind": "kernel-complex",
+                                   "kwcase": True})
     # texts outside the round-trip guard (correspondence only): renderings of two trees
     for _ in range(200 if quick else 3000):
         r = rng.random()
